@@ -165,7 +165,8 @@ func c04raw(c *core.Ctx) {
 		"Const": {"apply", nil}, "Regex": {"expression", []string{"re"}}, "TypeConstraint": {"value", nil},
 	}
 	// renderers that do not lose information on the stored value
-	lossless := map[string]bool{"String": true, "FormatUint": true, "FormatInt": true, "FormatBool": true, "Itoa": true, "Unquote": true, "uint64": true, "int64": true, "int": true, "string": true, "newRuleASTNode": true}
+	// (conversions to a signed or narrower type are NOT loss-free: strconv.Itoa(int(c.value)) wraps for values >= 2^63)
+	lossless := map[string]bool{"String": true, "FormatUint": true, "FormatBool": true, "Unquote": true, "uint64": true, "string": true, "newRuleASTNode": true}
 	var typs []string
 	for t := range want {
 		typs = append(typs, t)
